@@ -148,12 +148,12 @@ EXTRA = {
     "C08": "Also: no compilation outcome survives a call in a package-level variable (B5). The error of the compilation stage is tested and propagated by every function between the compiler and the entry points (B6). Every rego.New keeps print() calls visible to the unsafe built-in check (B7).",
     "C09": "Also: locks taken while validating are released by defer (S3). No map iteration order reaches the report (S4).",
     "C10": "Also: no call leaves state behind in a package-level variable (G4); no package-level channel (G5); no package-level object of a dependency (G6); no process-wide registry of a dependency is written (G7).",
-    "C12": "Also: the JSON encoder's error is never dropped (J6), Negate keeps the component name and every constructor names the component it builds (J7), the report stays a tree (J8), the @ids index holds exactly the input's nodes (J9). Where the generator discards the error of a text-valued function the callee hands its argument back on error returns (J10); a YAML node's text is read only under a scalar test (J11). The message text is never empty (J12); and/or rules have operands (J13).",
-    "C13": "Also: one sprintf argument per recorded variable and one recorded variable per occurrence (Q3); the lossy printed form of a rule never decides equality (Q5). Names are stored as the YAML accessor returned them, traced through SSA to every call site (Q6); Q3 is decided on the values the message parser and formatter build.",
-    "C14": "Also: no panic is swallowed while the lexical index is built (K5); the trace node follows the $traceNode placeholder exactly (K6). The file lookup returns the entry of exactly the id asked about or the default location (K2, on values).",
-    "C15": "Also: the YAML decoder is handed the entry point's profile text unchanged (O5); operand lists are only permuted, never filtered (O6); prefix names are not validated more strictly than the grammar (O7). The placeholder pattern finds every prefix name the grammar admits (O7); no loop of the profile parser that fills a list stops early (O8); scalar test before a node's text is read (O9). YAML aliases are rejected (O10).",
-    "C16": "Also: the generated parser is handed the caller's string unchanged (X7); the tree builder keeps every operand (X8); no parse result is cached across calls (X9). The generated interpreter gives back consumed input when a sequence, literal or predicate fails (X10).",
-    "C17": "Also: explicit panics never carry nil (Z7); a deferred close of the event channel is the only close (Z8); locks are released by defer. Negate of and/or returns a non-negated rule, so the two generators cannot recurse into each other for ever (Z9).",
+    "C12": "Also: the JSON encoder's error is never dropped (J6), Negate keeps the component name and every constructor names the component it builds (J7), the report stays a tree (J8), the @ids index holds exactly the input's nodes (J9). Where the generator discards the error of a text-valued function the callee hands its argument back on error returns (J10); a YAML node's text is read only under a scalar test (J11). The message text is never empty (J12); and/or rules have operands (J13). A report file is the whole content of its file (J14); every enumeration value has a non-empty name (J15); a validation is parsed under the key it was found under (J16).",
+    "C13": "Also: one sprintf argument per recorded variable and one recorded variable per occurrence (Q3); the lossy printed form of a rule never decides equality (Q5). Names are stored as the YAML accessor returned them, traced through SSA to every call site (Q6); Q3 is decided on the values the message parser and formatter build. The CLI never uses the report as a format (Q7); placeholders resolve with this profile's prefixes only (Q8).",
+    "C14": "Also: no panic is swallowed while the lexical index is built (K5); the trace node follows the $traceNode placeholder exactly (K6). The file lookup returns the entry of exactly the id asked about or the default location (K2, on values). The report builder does not remove or rewrite location nodes (K7).",
+    "C15": "Also: the YAML decoder is handed the entry point's profile text unchanged (O5); operand lists are only permuted, never filtered (O6); prefix names are not validated more strictly than the grammar (O7). The placeholder pattern finds every prefix name the grammar admits (O7); no loop of the profile parser that fills a list stops early (O8); scalar test before a node's text is read (O9). YAML aliases are rejected (O10). Constructors store the operand list they are given and no operand is conditional, on values (O6); no in-place extension of shared operand lists (O11).",
+    "C16": "Also: the generated parser is handed the caller's string unchanged (X7); the tree builder keeps every operand (X8); no parse result is cached across calls (X9). The generated interpreter gives back consumed input when a sequence, literal or predicate fails (X10). RuneError is only tested together with the decoder's width (X11); no expression budget by default (X12).",
+    "C17": "Also: explicit panics never carry nil (Z7); a deferred close of the event channel is the only close (Z8); locks are released by defer. Negate of and/or returns a non-negated rule, so the two generators cannot recurse into each other for ever (Z9). No compilation writes into the shared default prefix table (Z10).",
     "C18": "Also: every text handed to the library is a file's content as read (W5); a path that writes to stderr ends with a non-zero exit (W7). Nothing in reach of the library writes to standard output or error (W8); accepted argument counts are exactly the counts with an output branch (W9).",
 }
 
